@@ -259,3 +259,44 @@ func init() {
 		return Val{S: "Bytes", T: "(mkB false " + t + ")", Typ: p.typ(0)}
 	})
 }
+
+// ---- strings.Builder: the accumulated text is a ghost string per builder object
+func init() {
+	bget := func(p *preCall) (Val, string) {
+		fc := p.fc()
+		ptr := p.args[0]
+		obj := fc.load(p.st, ptr)
+		fc.B.DeclFun("builder_text", []string{obj.S}, "String")
+		fc.B.Assert(eq("(builder_text "+fc.zero(obj.Typ)+")", "\"\""))
+		return obj, "(builder_text " + obj.T + ")"
+	}
+	bset := func(p *preCall, obj Val, text string) {
+		fc := p.fc()
+		nv := fc.freshVal(obj.Typ, "builder")
+		fc.B.Assert(implies(p.reach, eq("(builder_text "+nv.T+")", text)))
+		fc.store(p.st, p.args[0], nv)
+	}
+	regW("(*strings.Builder).WriteString", func(p *preCall) Val {
+		obj, cur := bget(p)
+		bset(p, obj, "(str.++ "+cur+" "+p.str(1)+")")
+		return tup(Val{S: "Int", T: "(str.len " + p.str(1) + ")", Typ: types.Typ[types.Int]}, errNil())
+	})
+	regW("(*strings.Builder).WriteByte", func(p *preCall) Val {
+		obj, cur := bget(p)
+		bset(p, obj, "(str.++ "+cur+" (str.from_code "+p.args[1].T+"))")
+		return errNil()
+	})
+	reg("(*strings.Builder).String", func(p *preCall) Val {
+		_, cur := bget(p)
+		return strVal(cur)
+	})
+	// the zero Builder holds the empty text: asserted when a local Builder is first read (see builderZero)
+	reg("(github.com/cometbft/cometbft/libs/bytes.HexBytes).String", func(p *preCall) Val {
+		fc := p.fc()
+		fc.B.DeclFun("hex_upper", []string{"String"}, "String")
+		fc.B.DeclFun("unhex_upper", []string{"String"}, "String")
+		t := "(hex_upper " + p.str(0) + ")"
+		fc.B.Assert(and(eq("(unhex_upper "+t+")", p.str(0)), eq("(str.len "+t+")", "(* 2 (str.len "+p.str(0)+"))"), not("(str.contains "+t+" \"/\")")))
+		return strVal(t)
+	})
+}
